@@ -512,37 +512,64 @@ pub fn bfs<W: World>(inits: Vec<W>, opts: &BfsOpts, mut on_level: impl FnMut(usi
         }
         let trans = AtomicU64::new(0);
         let term = AtomicU64::new(0);
-        let mut succ: Vec<(u64, Node<W>)> = frontier
-            .par_iter()
-            .flat_map_iter(|n| {
-                let na = n.w.n_actions();
-                let mut out = Vec::with_capacity(na);
-                for a in 0..na {
-                    trans.fetch_add(1, Ordering::Relaxed);
-                    let mut p = n.path.clone();
-                    p.push(a as u16);
-                    match n.w.step(a, &p) {
-                        Some(w2) => {
-                            let fp = w2.fingerprint();
-                            out.push((fp, Node { w: w2, path: p }));
-                        }
-                        None => {
-                            term.fetch_add(1, Ordering::Relaxed);
+        let mut next = Vec::new();
+        let mut aborted = false;
+        // the frontier is expanded in chunks so that time and state caps are honoured inside a level
+        for chunk in frontier.chunks(2048) {
+            if t0.elapsed().as_secs_f64() > opts.max_secs {
+                st.capped = Some(format!("time cap {}s hit inside depth {} (completed depth {})", opts.max_secs, depth + 1, depth));
+                aborted = true;
+                break;
+            }
+            if st.states + next.len() as u64 > opts.max_states {
+                st.capped = Some(format!("state cap {} hit inside depth {} (completed depth {})", opts.max_states, depth + 1, depth));
+                aborted = true;
+                break;
+            }
+            if c.should_stop() {
+                st.capped = Some("stopped after too many distinct violations".into());
+                aborted = true;
+                break;
+            }
+            let mut succ: Vec<(u64, Node<W>)> = chunk
+                .par_iter()
+                .flat_map_iter(|n| {
+                    let na = n.w.n_actions();
+                    let mut out = Vec::with_capacity(na);
+                    for a in 0..na {
+                        trans.fetch_add(1, Ordering::Relaxed);
+                        let mut p = n.path.clone();
+                        p.push(a as u16);
+                        match n.w.step(a, &p) {
+                            Some(w2) => {
+                                let fp = w2.fingerprint();
+                                out.push((fp, Node { w: w2, path: p }));
+                            }
+                            None => {
+                                term.fetch_add(1, Ordering::Relaxed);
+                            }
                         }
                     }
+                    out.into_iter()
+                })
+                .collect();
+            // canonical order inside the chunk: by fingerprint then path → deterministic representative
+            // (chunks are processed in frontier order, which is itself deterministic)
+            succ.par_sort_unstable_by(|a, b| a.0.cmp(&b.0).then_with(|| a.1.path.cmp(&b.1.path)));
+            for (fp, n) in succ {
+                if visited.insert(fp) {
+                    next.push(n);
                 }
-                out.into_iter()
-            })
-            .collect();
+            }
+        }
         st.transitions += trans.load(Ordering::Relaxed);
         st.terminal += term.load(Ordering::Relaxed);
-        // canonical order: by fingerprint then path → deterministic representative
-        succ.par_sort_unstable_by(|a, b| a.0.cmp(&b.0).then_with(|| a.1.path.cmp(&b.1.path)));
-        let mut next = Vec::new();
-        for (fp, n) in succ {
-            if visited.insert(fp) {
-                next.push(n);
-            }
+        if aborted {
+            // states discovered in the partial level are counted, the level is not "completed"
+            st.states += next.len() as u64;
+            st.per_level.push(next.len() as u64);
+            on_level(depth + 1, &next);
+            return st;
         }
         depth += 1;
         st.states += next.len() as u64;
@@ -583,7 +610,7 @@ pub fn validate_paths<W: World>(make_init: impl Fn(usize) -> W + Sync, paths: &[
         if good && w.fingerprint() == *fp {
             ok.fetch_add(1, Ordering::Relaxed);
         } else {
-            machinery_failure(&format!("path re-execution diverged for path {:?}", path));
+            machinery_failure(&format!("path re-execution diverged for path {:?} (step enabled: {}, fingerprint {:x} vs recorded {:x}, last action {})", path, good, w.fingerprint(), fp, path.last().map(|a| w.describe_action(*a as usize % w.n_actions().max(1))).unwrap_or_default()));
         }
     });
     ok.load(Ordering::Relaxed)
@@ -639,4 +666,18 @@ pub fn enable_formatting_logger() {
 pub fn set_log_level(l: log::LevelFilter) {
     let _ = log::set_logger(&FLOGGER);
     log::set_max_level(l);
+}
+
+/// Remove memory addresses that some Debug implementations (bitvec) print.
+pub fn strip_addrs(s: String) -> String {
+    let mut out = String::with_capacity(s.len());
+    let mut rest = s.as_str();
+    while let Some(i) = rest.find("addr: 0x") {
+        out.push_str(&rest[..i]);
+        let tail = &rest[i + 8..];
+        let end = tail.find(|c: char| !c.is_ascii_hexdigit()).unwrap_or(tail.len());
+        rest = &tail[end..];
+    }
+    out.push_str(rest);
+    out
 }
